@@ -544,7 +544,12 @@ class Checker(object):
         fns = ['getnodebypath', 'getnodebypath2'] if k in ('loop', 'seg') else ['getnodebypath2']
         if k not in ('loop', 'seg'):
             self.counters['getnodebypath on element-level paths (not offered by the API, not asserted)'] += 1
-        starts = [(c.trees['pkg'], p, 'absolute')]
+        starts = [(c.trees['pkg'], p, 'absolute', n)]
+        # the same file loaded the other way (explicit map directory) is a second, equal-looking map object in this process:
+        # its nodes must be fetched from IT, not from the first object
+        n2 = c.impl.get('dir', {}).get(id(gn)) if 'dir' in c.trees and not isinstance(c.trees.get('dir'), Failed) else None
+        if n2 is not None:
+            starts.append((c.trees['dir'], p, 'absolute, second load of the file', n2))
         if self.thorough:
             a = n.parent if k in ('loop', 'seg') else None
             if k in ('ele', 'comp'):
@@ -554,14 +559,14 @@ class Checker(object):
             while a is not None and not a.is_map_root():
                 ap = a.get_path()
                 if p.startswith(ap + '/'):
-                    starts.append((a, p[len(ap) + 1:], 'relative'))
+                    starts.append((a, p[len(ap) + 1:], 'relative', n))
                 a = a.parent
         for fn in fns:
-            for start, sp, how in starts:
+            for start, sp, how, want_n in starts:
                 self.n += 1
                 try:
                     r = getattr(start, fn)(sp)
-                    if r is n:
+                    if r is want_n:
                         o = 'same'
                     elif r is None:
                         o = 'returns None'
